@@ -3,6 +3,7 @@ package main
 import (
 	"fmt"
 	"go/ast"
+	"go/parser"
 	"go/constant"
 	"go/token"
 	"go/types"
@@ -552,6 +553,10 @@ func scanPanicObligations(w *World, r *Report, rule string, cone map[*types.Func
 		if withLits {
 			insp = func(n ast.Node, f func(ast.Node) bool) { ast.Inspect(n, f) }
 		}
+		// rename-tolerant fallback: an access that has no exact reviewed entry may take an entry of the same
+		// function whose expression is equal up to the names of locals, provided the number of such orphan
+		// accesses equals the number of such orphan entries (a new access changes the count and stays open)
+		alphaPairs := alphaFallback(w, fd, insp, name, reviewed)
 		insp(fd.Body, func(n ast.Node) bool {
 			var expr ast.Expr
 			kind := ""
@@ -615,6 +620,11 @@ func scanPanicObligations(w *World, r *Report, rule string, cone map[*types.Func
 			for i := range reviewed {
 				if reviewed[i].Func == name && reviewed[i].Expr == es {
 					rev = &reviewed[i]
+				}
+			}
+			if rev == nil {
+				if e2, ok := alphaPairs[es]; ok {
+					rev = e2
 				}
 			}
 			if rev == nil {
@@ -957,4 +967,110 @@ func c05LexerLoops(w *World, r *Report) {
 			})
 		}
 	}
+}
+
+// alphaNorm renders an expression with every identifier that is not a
+// selected field/method name, a builtin or an imported package name replaced
+// by $1, $2 … in order of first occurrence (purely syntactic, so that it can
+// be applied to the reviewed tables' text and to the code alike).
+func alphaNorm(src string, pkgNames map[string]bool) string {
+	e, err := parser.ParseExpr(src)
+	if err != nil {
+		return src
+	}
+	names := map[string]string{}
+	var visit func(n ast.Node)
+	visit = func(n ast.Node) {
+		ast.Inspect(n, func(x ast.Node) bool {
+			switch y := x.(type) {
+			case *ast.SelectorExpr:
+				visit(y.X)
+				return false
+			case *ast.KeyValueExpr:
+				visit(y.Value)
+				return false
+			case *ast.Ident:
+				if pkgNames[y.Name] || types.Universe.Lookup(y.Name) != nil || y.Name == "_" {
+					return true
+				}
+				nn, ok := names[y.Name]
+				if !ok {
+					nn = fmt.Sprintf("$%d", len(names)+1)
+					names[y.Name] = nn
+				}
+				y.Name = nn
+			}
+			return true
+		})
+	}
+	visit(e)
+	return types.ExprString(e)
+}
+
+func alphaFallback(w *World, fd *ast.FuncDecl, insp func(ast.Node, func(ast.Node) bool), name string, reviewed []reviewedEntry) map[string]*reviewedEntry {
+	pkgNames := map[string]bool{}
+	for _, p := range w.All {
+		for _, f := range p.Syntax {
+			for _, im := range f.Imports {
+				path := strings.Trim(im.Path.Value, "\"")
+				if im.Name != nil {
+					pkgNames[im.Name.Name] = true
+				} else {
+					pkgNames[path[strings.LastIndex(path, "/")+1:]] = true
+				}
+			}
+		}
+	}
+	exact := map[string]bool{}
+	for i := range reviewed {
+		if reviewed[i].Func == name {
+			exact[reviewed[i].Expr] = true
+		}
+	}
+	// every index/slice/assertion/panic expression text of the function
+	var texts []string
+	seen := map[string]bool{}
+	insp(fd.Body, func(n ast.Node) bool {
+		switch x := n.(type) {
+		case *ast.IndexExpr, *ast.SliceExpr, *ast.TypeAssertExpr:
+			t := normExpr(x.(ast.Expr))
+			if !seen[t] {
+				seen[t] = true
+				texts = append(texts, t)
+			}
+		case *ast.CallExpr:
+			if id, ok := x.Fun.(*ast.Ident); ok && id.Name == "panic" {
+				t := normExpr(x)
+				if !seen[t] {
+					seen[t] = true
+					texts = append(texts, t)
+				}
+			}
+		}
+		return true
+	})
+	orphanAcc := map[string][]string{} // alpha form -> access texts without an exact entry
+	for _, t := range texts {
+		if !exact[t] {
+			a := alphaNorm(t, pkgNames)
+			orphanAcc[a] = append(orphanAcc[a], t)
+		}
+	}
+	orphanRev := map[string][]*reviewedEntry{}
+	for i := range reviewed {
+		if reviewed[i].Func == name && reviewed[i].Expr != "" && !seen[reviewed[i].Expr] {
+			a := alphaNorm(reviewed[i].Expr, pkgNames)
+			orphanRev[a] = append(orphanRev[a], &reviewed[i])
+		}
+	}
+	out := map[string]*reviewedEntry{}
+	for a, accs := range orphanAcc {
+		revs := orphanRev[a]
+		if len(revs) == len(accs) && len(accs) > 0 {
+			for i := range accs {
+				out[accs[i]] = revs[i]
+			}
+		}
+	}
+	return out
 }
